@@ -268,6 +268,11 @@ func (r *rtRun) genOp(rng *RNG, c *rtClient, cfg rtConfig) rtOp {
 		}
 	}
 	for {
+		if cfg.saturate && rng.Chance(10) {
+			// a source error into the (soon full) queue: dropped like every other event, never waited for
+			op.Kind, op.Src, op.V = "reportErr", rng.Intn(cfg.nsrc), 1+rng.Intn(9)
+			return op
+		}
 		if cfg.saturate && rng.Chance(85) {
 			v := (r.nextCtx*8 + rng.Intn(8)) * 4
 			if rng.Chance(15) {
@@ -540,6 +545,7 @@ func (r *rtRun) perform(rng *RNG, a rtAction, cfg rtConfig) bool {
 		} else {
 			op = r.genOp(rng, a.c, cfg)
 		}
+		op.Begin = r.stepNo + 1
 		a.c.op = op
 		r.opCount[op.Kind]++
 		return r.doStep(fmt.Sprintf("begin %d %s %d", a.c.id, op.label(r, a.c), op.Ctx), false, func() {
